@@ -37,6 +37,8 @@ def run(res, tier, seed):
         vlib.log('%s: %d states, %d/%d edges in %d schedules, %d real steps, drift %d, mismatch %d' % (tag, r.distinct, cov, tot, len(paths), s['steps'], s['drift'], s['state_mismatch']))
         os.unlink(sched)
     # affinity mail: every edge of Mailbox replayed on a real mail_outbox and real task_proxy objects
+    # ---- critical-task stream: pop_specific (isolation tags, null place-holders, back accessor) replayed edge-complete on the real task_stream
+    schedlib.replay_taskstream(res, 'C01', [('TaskStream_c.cfg', ['1', '1', '1', 'b', '7', '0', '1', '7'])] + ([('TaskStream_d.cfg', ['2', '1', '1', 'b', '7', '0', '2', '7'])] if thorough else []))
     mexe = vlib.build_harness('h_mailbox', ['sched/h_mailbox.cpp'])
     for cfg, np_ in [('Mailbox_2.cfg', '2')] + ([('Mailbox_3.cfg', '3')] if thorough else []):
         tag = 'c01-' + cfg[:-4]
